@@ -509,5 +509,31 @@ pub fn run(mut run: Run) -> i32 {
         }
         acc.sample(idx, || w());
     });
+    // clip against EMPTY clipping geometries (nothing is inside nothing): clip(false) is empty, clip(true) returns the whole line
+    {
+        let empties: Vec<(&str, MultiPolygon<f64>)> = vec![
+            ("MultiPolygon with no members", MultiPolygon(vec![])),
+            ("MultiPolygon of one empty polygon", MultiPolygon(vec![Polygon::new(LineString::new(vec![]), vec![])])),
+            ("MultiPolygon of two empty polygons", MultiPolygon(vec![Polygon::new(LineString::new(vec![]), vec![]), Polygon::new(LineString::new(vec![]), vec![])])),
+        ];
+        let nl2 = lines.len();
+        run.stage("clip-empty-operands", nl2 * empties.len(), |idx, acc| {
+            let (l, (name, mp)) = (&lines[idx % nl2], &empties[idx / nl2]);
+            let mls = MultiLineString(vec![ls(l)]);
+            let total: f64 = l.windows(2).map(|w| (((w[0].0 - w[1].0).pow(2) + (w[0].1 - w[1].1).pow(2)) as f64).sqrt()).sum();
+            let len = |m: &MultiLineString<f64>| -> f64 { m.0.iter().flat_map(|s| s.0.windows(2)).map(|w| ((w[0].x - w[1].x).powi(2) + (w[0].y - w[1].y).powi(2)).sqrt()).sum() };
+            acc.evals += 4;
+            acc.class(format!("clip empty operand: {}", name));
+            let poly_form = Polygon::new(LineString::new(vec![]), vec![]);
+            match guard(|| (mp.clip(&mls, false), mp.clip(&mls, true), poly_form.clip(&mls, false), poly_form.clip(&mls, true))) {
+                Err(e) => acc.viol("clip panic with an empty clipping geometry".into(), idx, || json!({"line": format!("{:?}", mls), "operand": name, "panic": e})),
+                Ok((i, o, pi, po)) => {
+                    if len(&i) != 0.0 || (len(&o) - total).abs() > 1e-9 || len(&pi) != 0.0 || (len(&po) - total).abs() > 1e-9 {
+                        acc.viol("clip against an empty clipping geometry: clip(false) must be empty and clip(true) the whole line".into(), idx, || json!({"line": format!("{:?}", mls), "operand": name, "clip(false)": format!("{:?}", i), "clip(true)": format!("{:?}", o), "empty Polygon clip(false)": format!("{:?}", pi), "empty Polygon clip(true)": format!("{:?}", po)}));
+                    }
+                }
+            }
+        });
+    }
     run.finish()
 }
